@@ -2553,6 +2553,8 @@ def r1011_define_option(P, rep):
     # writable string with the text of s; convert_universal_chars(p) rewrites *p in place and is the identity on text without a backslash (its loop copies
     # every byte that does not start a \u/\U escape), so for the clauses below the text of its argument stays the text it had.
     DECODER = 'convert_universal_chars'
+    rep.assumptions += ['R10.11: strdup(s) yields a private string with the text of s; %s(p) rewrites *p in place and leaves text without a backslash unchanged '
+                        '(contract cut; that a -D body passes through it, as the text of a file does in tokenize_file, is an obligation)' % DECODER]
     du, dec = P.find_function(DECODER)
     if dec is not None and ((dec.type or '').split('(')[0].strip() != 'void' or len([c for c in dec.inner if c.kind == 'ParmVarDecl']) != 1):
         rep.undecided('R10.11', '%s:%s:installs' % (U, fn), '%s is no longer an in-place pass over one string: its contract cut does not apply' % DECODER, where=where)
